@@ -332,6 +332,14 @@ func rulesC15(c *Ctx) {
 		return ""
 	}
 	tableElem := func(v ssa.Value) (*ssa.IndexAddr, int) {
+		// lockList.keys where lockList is the element copied out by `for _, lockList := range table`
+		if fv, isF := v.(*ssa.Field); isF {
+			if ld, isLd := fv.X.(*ssa.UnOp); isLd {
+				if ia, isIA := ld.X.(*ssa.IndexAddr); isIA {
+					return ia, fv.Field
+				}
+			}
+		}
 		ld, ok := v.(*ssa.UnOp)
 		if !ok {
 			return nil, -1
@@ -342,11 +350,34 @@ func rulesC15(c *Ctx) {
 		}
 		ia, ok := fa.X.(*ssa.IndexAddr)
 		if !ok {
+			// the element was copied into a local variable first (for _, row := range table)
+			if loc, isLoc := fa.X.(*ssa.Alloc); isLoc {
+				var st *ssa.Store
+				nst := 0
+				for _, r := range *loc.Referrers() {
+					if x, isSt := r.(*ssa.Store); isSt && x.Addr == ssa.Value(loc) {
+						st = x
+						nst++
+					}
+				}
+				if st != nil && nst == 1 {
+					if eld, isLd := st.Val.(*ssa.UnOp); isLd {
+						if ia2, isIA := eld.X.(*ssa.IndexAddr); isIA {
+							return ia2, fa.Field
+						}
+					}
+				}
+			}
 			return nil, -1
 		}
 		return ia, fa.Field
 	}
+	seenFn := map[*ssa.Function]bool{}
 	for _, g := range append([]*ssa.Function{runCmd}, reachableSamePkg(runCmd, 2)...) {
+		if seenFn[g] {
+			continue
+		}
+		seenFn[g] = true
 		for _, ci := range CallsTo(g, qualName(mark)) {
 			if l := listOf(ci.Arg(0)); l != "" {
 				pairs = append(pairs, lockPair{l, ci.Arg(2), ci.Pos(), len(pairs), ci})
@@ -360,7 +391,11 @@ func rulesC15(c *Ctx) {
 			// rows of the table: constant-index stores into the two fields
 			type row struct{ keys, mode ssa.Value }
 			rows := map[int64]*row{}
-			for _, r := range *ia0.X.Referrers() {
+			tbase := ia0.X
+			if sl, isSl := tbase.(*ssa.Slice); isSl {
+				tbase = sl.X // a slice literal: the rows are stored into its backing array
+			}
+			for _, r := range *tbase.Referrers() {
 				ia, ok := r.(*ssa.IndexAddr)
 				if !ok {
 					continue
@@ -418,7 +453,7 @@ func rulesC15(c *Ctx) {
 				if w.list != "RWLock" || r.list != "RLock" {
 					continue
 				}
-				if w.ci == r.ci {
+				if w.ci.Instr == r.ci.Instr {
 					// rows of one table walked by one loop: the write row must come later
 					if w.ord < r.ord {
 						bad = c.pos(r.pos)
@@ -454,9 +489,26 @@ func rulesC15(c *Ctx) {
 			fs factSet
 		}
 		var edges []edge
+		nsOf := ssa.Value(nsParam)
 		if p, ok := mu.Key.(*ssa.Phi); ok {
 			for i, e := range p.Edges {
 				edges = append(edges, edge{e, factsOnEdge(facts, p.Block().Preds[i], p.Block())})
+			}
+		} else if hcall := keyHelperCall(mu.Key, mark); hcall != nil {
+			// the key is the result of a private resolver h(key, namespace): judge each of its successful returns
+			h := hcall.Call.StaticCallee()
+			hf := factsFor(h)
+			for ai, a := range hcall.Call.Args {
+				if resolve(a) == ssa.Value(nsParam) && ai < len(h.Params) {
+					nsOf = h.Params[ai]
+				}
+			}
+			ei := errResultIndex(h.Signature)
+			for _, r := range returnsOf(h) {
+				if ei >= 0 && hf.HoldsOnAllEdges(r.Block(), func(fs factSet) bool { return knownNilIn(fs, r.Results[ei], false) }) {
+					continue
+				}
+				edges = append(edges, edge{r.Results[0], hf.At(r.Block())})
 			}
 		} else {
 			edges = append(edges, edge{mu.Key, facts.At(b)})
@@ -465,7 +517,7 @@ func rulesC15(c *Ctx) {
 		why := ""
 		sawGlobal, sawLocal := false, false
 		for _, e := range edges {
-			usesNS := hasOrigin(Origins(e.v, FlowOpts{}), func(o Origin) bool { return o.Val == ssa.Value(nsParam) })
+			usesNS := hasOrigin(Origins(e.v, FlowOpts{}), func(o Origin) bool { return o.Val == nsOf })
 			isGlobal, known := false, false
 			for k := range e.fs {
 				if call, ok := k.v.(*ssa.Call); ok {
@@ -771,4 +823,26 @@ func sortSkippedOnlyWhenTrivial(f *ssa.Function, sortCall *CallInfo, sorted ssa.
 		}
 	}
 	return !seen[acq.Block()]
+}
+
+// keyHelperCall: key is result 0 of a call to an unexported function of f's package.
+func keyHelperCall(key ssa.Value, f *ssa.Function) *ssa.Call {
+	v := resolve(key)
+	var call *ssa.Call
+	switch x := v.(type) {
+	case *ssa.Call:
+		call = x
+	case *ssa.Extract:
+		if x.Index == 0 {
+			call, _ = x.Tuple.(*ssa.Call)
+		}
+	}
+	if call == nil {
+		return nil
+	}
+	h := call.Call.StaticCallee()
+	if h == nil || h.Pkg != f.Pkg || h.Blocks == nil || (h.Object() != nil && h.Object().Exported()) {
+		return nil
+	}
+	return call
 }
